@@ -132,6 +132,9 @@ type PrintOpts struct {
 	// MapName, when set, prints identifiers listed in Attrs as MapName.attr (explicit form for C16)
 	MapName string
 	Attrs   map[string]bool
+	// Mixed prints only some free attribute occurrences explicitly: occurrence k when bit k%64 of MixMask is set
+	Mixed   bool
+	MixMask uint64
 }
 
 // Source renders the program text.
@@ -145,8 +148,9 @@ func (n *Node) SourceOpts(o PrintOpts) string {
 }
 
 type printer struct {
-	sb *strings.Builder
-	o  PrintOpts
+	sb  *strings.Builder
+	o   PrintOpts
+	occ int
 }
 
 func QuoteStr(s string) string {
@@ -303,7 +307,12 @@ func (p *printer) expr(n *Node, bound map[string]bool) {
 			p.w("false")
 		}
 	case KIdent:
-		if p.o.MapName != "" && p.o.Attrs[n.Name] && !bound[n.Name] {
+		explicit := p.o.MapName != "" && p.o.Attrs[n.Name] && !bound[n.Name]
+		if explicit && p.o.Mixed {
+			explicit = (p.o.MixMask>>(uint(p.occ)%64))&1 == 1
+			p.occ++
+		}
+		if explicit {
 			p.w(p.o.MapName + "." + n.Name)
 		} else {
 			p.w(n.Name)
